@@ -20,7 +20,9 @@ LEVEL = 'exploration'
 TECHNIQUE = ('runtime monitoring: post-condition oracle (popcount parity on '
              'Python ints) on every bs_prod / converter return value; '
              'exhaustive n<=3 in all representation pairs, random large '
-             'stacks with planted uint8-wrap overlaps')
+             'stacks with planted uint8-wrap overlaps; snapshots of every '
+             'argument compared after the call, returned arrays modified '
+             'and the call repeated')
 MANIFEST_TEXT = ('All 4^n x 4^n operator pairs for n<=3 are pushed through '
                  'bs_prod in every pair of accepted representations (list, 6 '
                  'integer dtypes, csr, csr with stored zeros) and shapes (1-D, (1,2n), stacked) and '
